@@ -10,9 +10,10 @@ from vp import real
 ID = "C02"
 LEVEL = "exploration"
 
-SPECIAL_KEYS = ["a*b", "&a", "*", "a.b", "a/b", "a[b", "a]b", "a(b", "a)b", "a'b", 'a"b',
+SPECIAL_KEYS = ["a*b", "&a", "*", "a*[b", "a\\\\b", "/a", "a.b", "a/b", "a[b", "a]b", "a(b", "a)b", "a'b", 'a"b',
                 "a b", "a^b", "a$b", "a%b", "a\\b"]
-NAMES = ["star", "lead-amp", "lone-star", "dot", "slash", "lbracket", "rbracket", "lparen", "rparen", "squote",
+NAMES = ["star", "lead-amp", "lone-star", "star-bracket", "two-backslashes",
+         "lead-slash", "dot", "slash", "lbracket", "rbracket", "lparen", "rparen", "squote",
          "dquote", "space", "caret", "dollar", "percent", "backslash"]
 
 KW = "keyword"
